@@ -146,3 +146,148 @@ Example C11_nonvacuous :
                      (tree_txn (fst (tree_new false 1)) 2))
   = [([], 11); ([1;2], 75); ([1;2;3], 13)].
 Proof. split; [exact (proj1 (tree_new_ok false 1))|vm_compute; reflexivity]. Qed.
+
+(* ---- the pointer-heap model of the write path (Part/Heap.v): nodes and leaves are cells of a heap,
+   Txn.cloneNode returns its argument for IN-PLACE mutation exactly when node.txnID = txn.txnID and
+   otherwise allocates a shallow copy (children and leaf shared with the original); delete's
+   single-child merge allocates child.clone(false). What the tree-valued model above cannot express
+   is proved here: the in-place writes of a transaction never hit a cell reachable from any other
+   tree, clone, iterator or snapshot — of any lineage, whatever the ids. *)
+From SV Require Part.Heap Part.HeapBase Part.HeapMod Part.HeapDel Part.HeapProofs.
+Module C11_Heap.
+Import SV.Part.Heap SV.Part.HeapBase SV.Part.HeapMod SV.Part.HeapDel SV.Part.HeapProofs.
+
+(* the computed denotation (fuel = number of cells) is the relational one *)
+Theorem C11_heap_den_is_rep : forall h a t, rep h a t -> den h a = Some t.
+Proof. exact rep_den. Qed.
+Print Assumptions C11_heap_den_is_rep.
+
+(* (a) REFINEMENT: Insert/Modify/InsertWatch/ModifyWatch and Delete on the heap compute exactly what
+   Part/Model.v computes on the denoted tree (root tree incl. all txnIDs and watch channels, size,
+   watch state, returned old value / new value / watch) and preserve the invariant.
+   hinv: 0 < txn id; the root represents a tree whose cells are frozen (leaves; inner nodes with
+   id < txn id; all satisfying P) or owned (id = txn id, an unshared tree, all in x_own).
+   Pext: P holds of the addresses not yet allocated. *)
+Theorem C11_heap_refines_tree : forall (P : nat -> Prop) h x md key v, hinv P h x -> @Pext P h ->
+  (let '(h', x', old, nv, w) := htxn_modify h x md key v in
+   hinv P h' x' /\ (habs h' x', old, nv, w) = txn_modify (habs h x) md key v) /\
+  (let '(h', x', old) := htxn_delete h x key in
+   hinv P h' x' /\ (habs h' x', old) = txn_delete (habs h x) key).
+Proof. exact heap_refines_tree. Qed.
+Print Assumptions C11_heap_refines_tree.
+
+(* (b) OWNERSHIP: a cell reachable from the txn's root carries the txn id iff the txn allocated AND
+   stamped it since its id was last bumped (x_own); Insert/Modify/Delete overwrite only such cells
+   and otherwise only append *)
+Theorem C11_inplace_writes_only_owned : forall (P : nat -> Prop) h x md key v, hinv P h x -> @Pext P h ->
+  (forall a, reach_root h (x_root x) a -> (cell_tid (hget h a) = x_tid x <-> In a (x_own x))) /\
+  (let '(h', x', _, _, _) := htxn_modify h x md key v in
+   (length h <= length h')%nat /\ x_own x' = own_after x h h' /\ x_tid x' = x_tid x /\
+   forall a, (a < length h)%nat -> ~ In a (x_own x) -> nth_error h' a = nth_error h a) /\
+  (let '(h', x', _) := htxn_delete h x key in
+   (length h <= length h')%nat /\ (x_own x' = own_after x h h' \/ h' = h /\ x' = x) /\ x_tid x' = x_tid x /\
+   forall a, (a < length h)%nat -> ~ In a (x_own x) -> nth_error h' a = nth_error h a).
+Proof. exact inplace_writes_only_owned. Qed.
+Print Assumptions C11_inplace_writes_only_owned.
+
+(* ... where "allocated since the bump" alone is NOT the right own-set: the clone made by the merge
+   branches keeps the child's older id (and leaves report id 0) although this txn allocated them *)
+Theorem C11_own_is_not_all_allocated_refuted :
+  exists (h : heap) (x : htxn) (k : bytes) (a : nat),
+    hinv (fun _ => True) h x /\
+    let '(h', x', _) := htxn_delete h x k in
+    reach_root h' (x_root x') a /\ (length h <= a < length h')%nat /\
+    cell_tid (hget h' a) <> x_tid x' /\ cell_tid (hget h' a) <> 0 /\ ~ In a (x_own x').
+Proof. exact own_is_not_all_allocated. Qed.
+Print Assumptions C11_own_is_not_all_allocated_refuted.
+
+(* the system of two live transactions and all handed-out roots on one heap: the invariant holds
+   initially (empty heap, New(), two transactions) and is preserved by every step of either
+   transaction: Insert/Modify/Delete, Clone/Iterator/Prefix/LowerBound/All (id bump, root handed
+   out), Commit (tree handed out, id bump), abandon + Tree.Txn on ANY handed-out tree (the new
+   txn takes that tree's nextTxnID: two live transactions may carry the same id) *)
+Theorem C11_heap_system_invariant :
+  SInv sys0 /\ (forall s s', SInv s -> sstep s s' -> SInv s') /\ (forall s, ssteps sys0 s -> SInv s).
+Proof. exact (conj SInv_sys0 (conj sstep_inv reachable_SInv)). Qed.
+Print Assumptions C11_heap_system_invariant.
+
+(* (c) PERSISTENCE: over any interleaving of operations of the two transactions, every root handed
+   out before (committed tree, clone, iterator root) stays handed out and denotes the same tree, as
+   does every node below it (Prefix / LowerBound start nodes, iterator edge stacks); more generally
+   every address r of the heap that reaches no owned cell denotes the same tree *)
+Theorem C11_persistence_all_trees : forall s s', SInv s -> ssteps s s' ->
+  SInv s' /\
+  (forall t, In t (s_pubs s) -> In t (s_pubs s') /\ habs_tree (s_heap s') t = habs_tree (s_heap s) t /\
+     forall r, reach_root (s_heap s) (hr_root t) r -> den (s_heap s') r = den (s_heap s) r) /\
+  (forall r t, rep (s_heap s) r t -> safe s r -> den (s_heap s') r = den (s_heap s) r).
+Proof. exact persistence_all_trees. Qed.
+Print Assumptions C11_persistence_all_trees.
+
+(* the other live transaction (begun from the same or from a different tree) is not disturbed either *)
+Theorem C11_other_txn_isolated : forall h a b ps h' a' ps', SInv (mkSys h a b ps) -> tstep h a ps h' a' ps' ->
+  habs h' b = habs h b.
+Proof. exact other_txn_isolated. Qed.
+Print Assumptions C11_other_txn_isolated.
+
+(* (d) the seeded shallow-clone bug: the single-child merge of delete rewriting the child's prefix
+   in place when the PARENT is owned (instead of child.clone(false)) changes an earlier snapshot:
+   keys "a","ab","ac","b"; Commit; the same Txn deletes "ab" then "a". The real code does not. *)
+Theorem C11_shallow_child_merge_refuted :
+  exists (h : heap) (x : htxn) (snap : htree) (k1 k2 : bytes),
+    hinv (fun _ => True) h x /\ pub_ok h (x_own x) [] snap /\
+    (let '(h1, x1, _) := htxn_delete_bug h x k1 in
+     let '(h2, _, _) := htxn_delete_bug h1 x1 k2 in
+     den_root h2 (hr_root snap) <> den_root h (hr_root snap)) /\
+    (let '(h1, x1, _) := htxn_delete h x k1 in
+     let '(h2, _, _) := htxn_delete h1 x1 k2 in
+     den_root h2 (hr_root snap) = den_root h (hr_root snap)).
+Proof. exact shallow_child_merge_refuted. Qed.
+Print Assumptions C11_shallow_child_merge_refuted.
+
+(* 0 < txn id in the invariant is necessary: leaves report txnID 0, so a txn with id 0 (Tree.New
+   before the nextTxnID = 1 fix) mutates a leaf of an earlier tree in place *)
+Theorem C11_txn_id_zero_refuted :
+  exists (h : heap) (x : htxn) (snap : option nat) (k : bytes) (v : N),
+    x_tid x = 0 /\ x_own x = [] /\
+    den_root (fst (fst (fst (fst (htxn_modify h x None k v))))) snap <> den_root h snap.
+Proof. exact txn_id_zero_refuted. Qed.
+Print Assumptions C11_txn_id_zero_refuted.
+
+(* non-vacuity: keys "a","ab","ac","b", Commit (tree t1), Delete "ab" through the same Txn, Commit
+   (tree t2): both states satisfy the invariant, t1 and t2 have different roots and share cells,
+   and both denotations are as expected after the delete *)
+Definition nv_ops : list (bool * act) :=
+  [(false, AIns ka 1); (false, AIns kab 2); (false, AIns kac 3); (false, AIns kb 4); (false, ACommit);
+   (false, ADel kab); (false, ACommit)].
+Example C11_heap_nonvacuous :
+  let s1 := srun (firstn 5 nv_ops) sys0 in let s2 := srun nv_ops sys0 in
+  SInv s1 /\ SInv s2 /\ ssteps s1 s2 /\
+  exists t1 t2 r1 r2 a, In t1 (s_pubs s1) /\ In t2 (s_pubs s2) /\ hr_root t1 = Some r1 /\ hr_root t2 = Some r2 /\
+    r1 <> r2 /\ reach (s_heap s2) r1 a /\ reach (s_heap s2) r2 a /\
+    den (s_heap s2) r1 = den (s_heap s1) r1 /\
+    option_map node_entries (den (s_heap s2) r1) = Some [(ka, 1); (kab, 2); (kac, 3); (kb, 4)] /\
+    option_map node_entries (den (s_heap s2) r2) = Some [(ka, 1); (kac, 3); (kb, 4)].
+Proof.
+  cbv zeta.
+  assert (A : ssteps sys0 (srun (firstn 5 nv_ops) sys0)) by apply srun_ssteps.
+  assert (B : ssteps (srun (firstn 5 nv_ops) sys0) (srun nv_ops sys0)).
+  { rewrite <- (firstn_skipn 5 nv_ops) at 2. unfold srun. rewrite fold_left_app. apply srun_ssteps. }
+  split; [apply reachable_SInv; exact A|]. split; [apply reachable_SInv; eapply ssteps_trans; eauto|]. split; [exact B|].
+  exists (nth 0 (s_pubs (srun (firstn 5 nv_ops) sys0)) tree0), (nth 0 (s_pubs (srun nv_ops sys0)) tree0), 6%nat, 8%nat, 4%nat.
+  split; [apply nth_In; vm_compute; lia|]. split; [apply nth_In; vm_compute; lia|].
+  split; [vm_compute; reflexivity|]. split; [vm_compute; reflexivity|]. split; [discriminate|].
+  split; [apply (addrs_reach 20); vm_compute; tauto|]. split; [apply (addrs_reach 20); vm_compute; tauto|].
+  split; [vm_compute; reflexivity|]. split; vm_compute; reflexivity.
+Qed.
+
+(* the hypotheses of (a) and (b) are satisfiable by a non-trivial state: a live transaction of a
+   branching two-transaction history that owns cells and shares frozen cells with handed-out trees *)
+Example C11_heap_hinv_nonvacuous :
+  let h := s_heap HeapExample.s_end in let x := s_b HeapExample.s_end in
+  hinv (fun _ => True) h x /\ @Pext (fun _ => True) h /\ x_own x <> [] /\ x_root x <> None /\ (length h = 27)%nat.
+Proof.
+  cbv zeta. destruct HeapExample.reachable_mid_end as (_ & _ & _ & (_ & HB & _)).
+  split; [eapply hinv_P_impl; [exact HB|auto]|]. split; [intros y _; exact I|].
+  split; [vm_compute; discriminate|]. split; [vm_compute; discriminate|]. vm_compute. reflexivity.
+Qed.
+End C11_Heap.
